@@ -378,7 +378,13 @@ fn main() {
             std::process::exit(2);
         }
     };
-    let seed = std::env::var("VERIF_SEED").ok().and_then(|s| s.trim().parse::<u64>().ok()).unwrap_or(20260926);
+    let seed = std::env::var("VERIF_SEED")
+        .ok()
+        .and_then(|s| {
+            let s = s.trim().to_string();
+            s.parse::<u64>().ok().or_else(|| s.parse::<i64>().ok().map(|v| v.unsigned_abs()))
+        })
+        .unwrap_or(20260926);
     let jobs = std::env::var("VERIF_JOBS").ok().and_then(|s| s.parse::<usize>().ok()).unwrap_or(16).clamp(1, 64);
     let scale = std::env::var("VERIF_SCALE").ok().and_then(|s| s.parse::<f64>().ok()).unwrap_or(1.0);
     let prop = match props.iter().find(|p| p.id == id.as_str()) {
